@@ -691,6 +691,17 @@ class CExec:
             return env
         raise Untranslatable(f'C: expression statement {e[0]}')
 
+    def ret(self, e):
+        """`return c ? a : b` is `if (c) return a; else return b;`"""
+        if e is not None and e[0] == 'tern':
+            c = c_simp(e[1])
+            if c == TRUE:
+                return self.ret(e[2])
+            if c == FALSE:
+                return self.ret(e[3])
+            return ('if', c, self.ret(e[2]), self.ret(e[3]))
+        return ('ret', e)
+
     def run(self, stmts, env):
         self.nodes += 1
         if self.nodes > 4000:
@@ -712,7 +723,7 @@ class CExec:
         if k == 'expr':
             return self.run(rest, self.effect(s[1], env))
         if k == 'return':
-            return ('ret', c_subst(s[1], env) if s[1] is not None else None)
+            return self.ret(c_subst(s[1], env) if s[1] is not None else None)
         if k == 'throw':
             return ('throw',)
         if k in ('break', 'continue'):
@@ -788,7 +799,11 @@ def tree_value(t, pred, val):
         return a
     if a == b:
         return a
-    return ('tern', t[1], a, b)
+    c = t[1]
+    if (c[0] == 'bin' and c[1] in ('>=', '>', '!=')) or (c[0] == 'un' and c[1] == '!'):
+        # one spelling for a test and its negation: `<`, `<=`, `==` with the branches in the matching order
+        return ('tern', c_not(c), b, a)
+    return ('tern', c, a, b)
 
 
 def c_unparse(e):
